@@ -8,7 +8,8 @@ EXTENDS Codec, Json, IOUtils
 
 ASSUME JsonSerialize(IOEnv.C15_DOMAIN,
                      [rule |-> RuleSeq, uniq |-> UniqSeq, uid |-> UidSeq, event |-> EventSeq,
-                      zk |-> ZkSeq, ldap |-> LdapSeq,
+                      zk |-> ZkSeq, ldap |-> LdapSeq, ldapupd |-> LdapUpdSeq,
+                      updextra |-> [partition |-> PartitionUpd, cellalloc |-> CellAllocUpd, app |-> AppUpd],
                       specs |-> [partition |-> PartitionSpec, cellalloc |-> CellAllocSpec,
                                  app |-> AppSpec]])
 =============================================================================
